@@ -9,8 +9,9 @@ Keys are the encoded key bits (width `n` = FixedSize of the key type), values ar
 Marshal/Unmarshal of the value type do at the end of a leaf cell, `pay v` the bits and refs of value `v`.
 
 Hypotheses used below (all satisfiable, see the examples at the end):
-* `DecodesPayload C pay` : the value decoder reads back `pay v`;
-* `Fits C pay n v`       : the value encoder produces `pay v` and the leaf has room for it next to a full-width label;
+* `DecodesValue C pay v` : the value decoder reads back `pay v` (asked only of the values that occur);
+* `Fits C pay n v`       : the value encoder produces `pay v`, the leaf has room for it next to a full-width label, and
+                           `DecodesValue C pay v`;
 * `SortedKV kvs`         : entries listed in strictly ascending order of key bits (`lexLt`);
 * `HTree.Valid n t`      : `t` is a TL-B `Hashmap n X` tree, any of hml_short / hml_long / hml_same on any edge.
 -/
@@ -38,8 +39,7 @@ theorem width_lt_of_fits (C : Codec V) (pay : V → List Bool × List Cell) (n :
 /-- decode ∘ encode = id on sorted input: `Hashmap.UnmarshalTLB` of what `encodeMap` wrote returns the same keys and
 values in the same (ascending key-bit) order. -/
 theorem decode_encode_sorted (C : Codec V) (pay : V → List Bool × List Cell) (n : Nat) (kvs : List (Key × V))
-    (hne : kvs ≠ []) (hw : ∀ kv ∈ kvs, kv.1.length = n) (hs : SortedKV kvs) (hfit : ∀ kv ∈ kvs, Fits C pay n kv.2)
-    (hdec : DecodesPayload C pay) :
+    (hne : kvs ≠ []) (hw : ∀ kv ∈ kvs, kv.1.length = n) (hs : SortedKV kvs) (hfit : ∀ kv ∈ kvs, Fits C pay n kv.2) :
     ∃ c, encodeMap C (n + 1) kvs (n : Int) = .ok c ∧ unmarshal C n c = .ok kvs := by
   obtain ⟨t, hv, hm, he⟩ := encode_sorted_tree C pay n kvs hne hw hs hfit
   refine ⟨t.toCell pay n, he, ?_⟩
@@ -49,21 +49,23 @@ theorem decode_encode_sorted (C : Codec V) (pay : V → List Bool × List Cell) 
   rw [toCell_ty]
   have h0 : ¬ ((0 : Nat) = tyLibrary) := by decide
   simp only [h0, if_false]
-  rw [mapInner_toCell C pay hdec n hn t n [] (n + 1) hv (by simp) (Nat.lt_succ_self n), ← hm]
+  have hdec : ∀ kv ∈ t.meaning, DecodesValue C pay kv.2 := by
+    rw [hm]; exact fun kv hkv => (hfit kv hkv).2.2.2
+  rw [mapInner_toCell C pay n hn t hdec n [] (n + 1) hv (by simp) (Nat.lt_succ_self n), ← hm]
   simp
 
 /-- Every valid TON dictionary — any mix of the three label forms, e.g. written by another implementation — decodes
 (through the `HashmapE` wrapper) to the mapping it represents, listed in strictly ascending order of key bits, every
 key of width `n`. -/
-theorem decode_any_valid (C : Codec V) (pay : V → List Bool × List Cell) (hdec : DecodesPayload C pay) (n : Nat)
-    (hn : n < 2 ^ 64) (t : HTree V) (hv : t.Valid n) :
+theorem decode_any_valid (C : Codec V) (pay : V → List Bool × List Cell) (n : Nat)
+    (hn : n < 2 ^ 64) (t : HTree V) (hv : t.Valid n) (hdec : ∀ kv ∈ t.meaning, DecodesValue C pay kv.2) :
     unmarshalE C n (wrapE (t.toCell pay n)) = .ok t.meaning ∧ SortedKV t.meaning ∧
       ∀ kv ∈ t.meaning, kv.1.length = n := by
   refine ⟨?_, meaning_sorted t n hv, meaning_key_length t n hv⟩
   have h0 : ¬ ((0 : Nat) = tyLibrary) := by decide
   have h1 : ¬ ((0 : Nat) = tyPruned) := by decide
   simp only [unmarshalE, wrapE, ty_ordinary, bits_ordinary, refs_ordinary, h0, if_false, unmarshal, toCell_ty, h1]
-  rw [mapInner_toCell C pay hdec n hn t n [] (n + 1) hv (by simp) (Nat.lt_succ_self n)]
+  rw [mapInner_toCell C pay n hn t hdec n [] (n + 1) hv (by simp) (Nat.lt_succ_self n)]
   simp
 
 /-- the empty dictionary is the single bit 0 and decodes to no entries -/
@@ -74,8 +76,7 @@ theorem decode_empty (C : Codec V) (n : Nat) : unmarshalE C n (Cell.ordinary [fa
 /-- `HashmapE` round trip for ANY slice order of distinct keys: Marshal (which orders the entries by key bits) followed
 by Unmarshal returns the same entries in ascending key-bit order; the empty dictionary is the single bit 0. -/
 theorem hashmapE_roundtrip (C : Codec V) (pay : V → List Bool × List Cell) (n : Nat) (kvs : List (Key × V))
-    (hnd : (keysOf kvs).Nodup) (hw : ∀ kv ∈ kvs, kv.1.length = n) (hfit : ∀ kv ∈ kvs, Fits C pay n kv.2)
-    (hdec : DecodesPayload C pay) :
+    (hnd : (keysOf kvs).Nodup) (hw : ∀ kv ∈ kvs, kv.1.length = n) (hfit : ∀ kv ∈ kvs, Fits C pay n kv.2) :
     (kvs = [] → marshalE C n kvs = .ok (Cell.ordinary [false] [])) ∧
     ∃ c, marshalE C n kvs = .ok c ∧ unmarshalE C n c = .ok (sortKV kvs) ∧ SortedKV (sortKV kvs) := by
   constructor
@@ -97,7 +98,9 @@ theorem hashmapE_roundtrip (C : Codec V) (pay : V → List Bool × List Cell) (n
       have hmax : maxKeyLen (x :: rest) = n := maxKeyLen_eq n _ (by simp) hw
       refine ⟨wrapE (t.toCell pay n), ?_, ?_, hsorted⟩
       · simp [marshalE, marshal, hmax, he, wrapE]
-      · rw [(decode_any_valid C pay hdec n hn t hv).1, hm]
+      · have hdec : ∀ kv ∈ t.meaning, DecodesValue C pay kv.2 := by
+          rw [hm]; exact fun kv hkv => (hfit kv (hp.mem_iff.mp hkv)).2.2.2
+        rw [(decode_any_valid C pay n hn t hv hdec).1, hm]
 
 /-- `Put` keeps the slice ordered by the key family's `Compare` (strict, hence duplicate-free), and keeps key widths. -/
 theorem put_sorted (lt : Key → Key → Bool) (n : Nat) (hlt : StrictTotalOn lt n) (d : List (Key × V)) (k : Key) (v : V)
@@ -173,28 +176,27 @@ theorem decode_encode_signed (C : Codec V) (pay : V → List Bool × List Cell) 
     (hneg : neg ≠ []) (hnn : nonneg ≠ [])
     (h1 : ∀ kv ∈ neg, ∃ k', kv.1 = true :: k') (h0 : ∀ kv ∈ nonneg, ∃ k', kv.1 = false :: k')
     (hw : ∀ kv ∈ neg ++ nonneg, kv.1.length = n) (hs1 : SortedKV neg) (hs0 : SortedKV nonneg)
-    (hfit : ∀ kv ∈ neg ++ nonneg, Fits C pay n kv.2) (hdec : DecodesPayload C pay) :
+    (hfit : ∀ kv ∈ neg ++ nonneg, Fits C pay n kv.2) :
     ∃ c, encodeMap C (n + 1) (neg ++ nonneg) (n : Int) = .ok c ∧ unmarshal C n c = .ok (nonneg ++ neg) := by
   rw [encodeMap_signed_order C (n + 1) n neg nonneg hneg hnn h1 h0]
   apply decode_encode_sorted C pay n (nonneg ++ neg) (by simp [hnn])
   · intro kv hkv; exact hw kv (by simp at hkv ⊢; tauto)
   · exact sortedKV_append_signed neg nonneg hs1 hs0 h1 h0
   · intro kv hkv; exact hfit kv (by simp at hkv ⊢; tauto)
-  · exact hdec
 
 /-- The property in one statement: fill a dictionary by `Put` (any `Compare`) from ANY ordering `ops` of distinct `n`-bit
 keys; Marshal succeeds, Unmarshal of the result lists exactly the inserted pairs in ascending key-bit order, and the
 listing is the same for every ordering (`sortKV ops` depends only on the set, see `encode_order_independent`). -/
 theorem build_encode_decode (C : Codec V) (pay : V → List Bool × List Cell) (n : Nat) (lt : Key → Key → Bool)
     (ops : List (Key × V)) (hnd : (keysOf ops).Nodup) (hw : ∀ kv ∈ ops, kv.1.length = n)
-    (hfit : ∀ kv ∈ ops, Fits C pay n kv.2) (hdec : DecodesPayload C pay) :
+    (hfit : ∀ kv ∈ ops, Fits C pay n kv.2) :
     ∃ c, marshalE C n (buildPut lt ops) = .ok c ∧ unmarshalE C n c = .ok (sortKV ops) ∧
       SortedKV (sortKV ops) ∧ (sortKV ops).Perm ops := by
   have hb := buildPut_perm lt ops hnd
   have hndb : (keysOf (buildPut lt ops)).Nodup := (hb.map Prod.fst).symm.nodup hnd
   have hwb : ∀ kv ∈ buildPut lt ops, kv.1.length = n := fun kv h => hw kv (hb.mem_iff.mp h)
   have hfb : ∀ kv ∈ buildPut lt ops, Fits C pay n kv.2 := fun kv h => hfit kv (hb.mem_iff.mp h)
-  obtain ⟨c, h1, h2, h3⟩ := (hashmapE_roundtrip C pay n _ hndb hwb hfb hdec).2
+  obtain ⟨c, h1, h2, h3⟩ := (hashmapE_roundtrip C pay n _ hndb hwb hfb).2
   have hs : sortKV (buildPut lt ops) = sortKV ops :=
     sortKV_perm_eq n _ _ hb hndb (by
       intro k hk
@@ -217,7 +219,7 @@ theorem put_spec (lt : Key → Key → Bool) (d : List (Key × V)) (k : Key) (v 
 
 /-- `Put` on a DECODED dictionary followed by Marshal / Unmarshal yields the updated mapping in ascending key-bit order —
 for every key family, signed ones included (where Put's position by numeric `Compare` is not the bit-order position). -/
-theorem decode_then_put_encodes (C : Codec V) (pay : V → List Bool × List Cell) (hdec : DecodesPayload C pay) (n : Nat)
+theorem decode_then_put_encodes (C : Codec V) (pay : V → List Bool × List Cell) (n : Nat)
     (lt : Key → Key → Bool) (t : HTree V) (hv : t.Valid n) (k : Key) (v : V) (hk : k.length = n)
     (hfit : ∀ kv ∈ t.meaning, Fits C pay n kv.2) (hfv : Fits C pay n v) :
     ∃ c, marshalE C n (put lt t.meaning k v) = .ok c ∧
@@ -237,7 +239,7 @@ theorem decode_then_put_encodes (C : Codec V) (pay : V → List Bool × List Cel
     rcases mem_put lt t.meaning k v kv hkv with e | e
     · rw [e]; exact hfv
     · exact hfit kv e
-  obtain ⟨c, h1, h2, h3⟩ := (hashmapE_roundtrip C pay n _ hnd hw hf hdec).2
+  obtain ⟨c, h1, h2, h3⟩ := (hashmapE_roundtrip C pay n _ hnd hw hf).2
   refine ⟨c, h1, h2, h3, ?_⟩
   intro k'
   rw [get_perm _ _ (sortKV_perm _) ((sortKV_perm _).map Prod.fst |>.symm.nodup hnd)]
@@ -247,15 +249,15 @@ theorem decode_then_put_encodes (C : Codec V) (pay : V → List Bool × List Cel
 decodes to the key→value mapping it represents; the extras (per node and the root extra `y0`) are consumed and dropped. -/
 theorem aug_decode_any_valid {Y : Type} (skipX : List Bool → List Cell → Outcome (List Bool × List Cell))
     (C : Codec V) (pay : V → List Bool × List Cell) (xpay : Y → List Bool × List Cell)
-    (hdec : DecodesPayload C pay) (hskip : SkipsExtra skipX xpay) (n : Nat) (hn : n < 2 ^ 64)
-    (t : ATree V Y) (hv : t.Valid n) (y0 : Y) :
+    (hskip : SkipsExtra skipX xpay) (n : Nat) (hn : n < 2 ^ 64)
+    (t : ATree V Y) (hv : t.Valid n) (hdec : ∀ kv ∈ t.meaning, DecodesValue C pay kv.2) (y0 : Y) :
     unmarshalAugE skipX C n (Cell.ordinary (true :: (xpay y0).1) (t.toCell pay xpay n :: (xpay y0).2)) = .ok t.meaning := by
   have h0 : ¬ ((0 : Nat) = tyLibrary) := by decide
   have h1 : ¬ ((0 : Nat) = tyPruned) := by decide
   have hsk := hskip y0 [] []
   simp only [List.append_nil] at hsk
   simp only [unmarshalAugE, ty_ordinary, bits_ordinary, refs_ordinary, h0, h1, if_false, atree_toCell_ty]
-  rw [mapInnerAug_toCell skipX C pay xpay hdec hskip n hn t n [] (n + 1) hv (by simp) (Nat.lt_succ_self n)]
+  rw [mapInnerAug_toCell skipX C pay xpay hskip n hn t hdec n [] (n + 1) hv (by simp) (Nat.lt_succ_self n)]
   simp [hsk]
 
 /-! ## The defect repaired by `fix: Hashmap.MarshalTLB orders entries by their encoded key bits` (DESIGN §9 #10)
@@ -291,13 +293,18 @@ theorem decode_then_put_witness_ok :
 
 def u32Pay (v : List Bool) : List Bool × List Cell := (v, [])
 
-/-- the example codec decodes what it encodes, for 32-bit values -/
-example : ∀ v : List Bool, v.length = 32 → u32Codec.dec (u32Pay v).1 (u32Pay v).2 = .ok v := by
+/-- the example codec decodes what it encodes, for every 32-bit value -/
+example : ∀ v : List Bool, v.length = 32 → DecodesValue u32Codec u32Pay v := by
   intro v hv
-  simp [u32Codec, u32Pay, hv, List.take_of_length_le (Nat.le_of_eq hv)]
+  simp [DecodesValue, u32Codec, u32Pay, hv, List.take_of_length_le (Nat.le_of_eq hv)]
 
-example : Fits u32Codec u32Pay 8 (u32 5) := by
-  refine ⟨rfl, ?_, ?_⟩ <;> decide
+/-- …so every 32-bit value fits next to an 8-bit key -/
+example : ∀ v : List Bool, v.length = 32 → Fits u32Codec u32Pay 8 v := by
+  intro v hv
+  refine ⟨rfl, ?_, ?_, ?_⟩
+  · simp only [u32Pay, hv]; decide
+  · simp [u32Pay]
+  · simp [DecodesValue, u32Codec, u32Pay, hv, List.take_of_length_le (Nat.le_of_eq hv)]
 
 example : SortedKV [(i8 0, u32 1), (i8 1, u32 2), (i8 (-2), u32 3), (i8 (-1), u32 4)] := by
   unfold SortedKV; decide
